@@ -48,7 +48,7 @@ func genACLCase(rt *rapid.T) ACLCase {
 	c := ACLCase{HTTP: rapid.Bool().Draw(rt, "http")}
 	c.Pre = rapid.SliceOfN(rapid.Custom(func(rt *rapid.T) dbx.Op {
 		return dbx.GenOp(rt, c01Names, []string{"put", "put", "put", "put", "activate", "delver", "del"}, 1)
-	}), 0, 14).Draw(rt, "pre")
+	}), h.LenBias(rt, 0, 14), 14).Draw(rt, "pre")
 	c.Rules = genRuleSet(rt)
 	if rapid.IntRange(0, 2).Draw(rt, "withothers") == 0 {
 		n := rapid.IntRange(1, 3).Draw(rt, "nothers")
@@ -64,7 +64,7 @@ func genACLCase(rt *rapid.T) ACLCase {
 		o := dbx.GenOp(rt, c01Names, kinds, 1)
 		o.Caller = 1 + rapid.IntRange(0, len(c.Others)).Draw(rt, "caller")
 		return o
-	}), 1, 25).Draw(rt, "ops")
+	}), h.LenBias(rt, 1, 25), 25).Draw(rt, "ops")
 	return c
 }
 
@@ -248,7 +248,7 @@ func runC01(t *testing.T, c ACLCase) (*h.Violation, h.Info) {
 
 var c01 = &h.Campaign[ACLCase]{
 	Prop: "C01", Sub: "acl",
-	Rule: "rapid: a superuser pre-history (0-14 mutations) over 9 names (plain, dev/.., prod/.., one containing '*', one containing a newline, _internal/x, empty), a rule set of 0-3 rules (action multisets incl. near-miss strings, 1-3 patterns from exact names and wildcard shapes), then 1-25 calls of every kind by the restricted caller; run either on db.DB or through the registered HTTP handlers + setec.Client with a WhoIs table; expected outcome from the ACL model + map model BEFORE the call; every denied call is repeated on an empty twin database and the refusals compared; superuser dump after every call; non-trivial = the scenario has a denied call on an existing secret AND an allowed successful call AND a wildcard pattern; distinct by scenario",
+	Rule: "rapid: a superuser pre-history (0-14 mutations) over 9 names (plain, dev/.., prod/.., one containing '*', one containing a newline, _internal/x, empty), a rule set of 0-3 rules (action multisets incl. near-miss strings, 1-3 patterns from exact names and wildcard shapes), then 1-25 calls of every kind by the restricted caller - in one case of three by up to four restricted callers with their own rule sets (two tagged devices, a second node of the first caller's user), with extra list calls; run either on db.DB or through the registered HTTP handlers + setec.Client with a WhoIs table; expected outcome from the ACL model + map model BEFORE the call; every denied call is repeated on an empty twin database and the refusals compared; superuser dump after every call; non-trivial = the scenario has a denied call on an existing secret AND an allowed successful call AND a wildcard pattern; distinct by scenario",
 	Quick: 6000, Thorough: 1000000,
 	Gen:   genACLCase,
 	Run:   runC01,
